@@ -517,6 +517,9 @@ func Run(tier string) int {
 	if only("chunks") {
 		rn.chunkSpace()
 	}
+	if only("wide") {
+		rn.wideSpace()
+	}
 	return r.Finish()
 }
 
@@ -766,6 +769,73 @@ func (rn *runner) ccittSpace() {
 		}
 		rn.distinct("c", b.Cols, b.Data)
 	})
+}
+
+// wideSpace: C06's long runs and wide CCITT rows against the independent codecs,
+// and the independent encoders' output read through small buffers.
+func (rn *runner) wideSpace() {
+	r := rn.r
+	lens := c06.LongRunLengths(r.Thorough())
+	wide := c06.WideRows()
+	r.Dim("wide_space", map[string]any{
+		"long_runs":       fmt.Sprintf("one byte repeated n times, %d lengths around the powers of two up to %d and 5 000 000: library LZW / Flate / RunLength encoder -> independent decoder and back", len(lens), lens[len(lens)-2]),
+		"wide_ccitt_rows": fmt.Sprintf("%d two-row bitmaps whose runs sit on the make-up code boundaries: library encoder (Group 3 1-D with EndOfLine, Group 4) -> x/image/ccitt", len(wide)),
+		"small_reads":     "ASCII85 / ASCIIHex / RunLength / LZW data from the independent encoders, read from the library decoder with buffers of 1, 2, 3, 5 and 7 bytes, inputs of length 0..12",
+	})
+	r.Par(len(lens), func(i int) {
+		if r.Expired() {
+			return
+		}
+		data := bytes.Repeat([]byte{0x5a}, lens[i])
+		rn.encSide("wide", c06.FSpec{Kind: "LZW", Early: true}, "ref/lzw", data)
+		rn.encSide("wide", c06.FSpec{Kind: "LZW"}, "ref/lzw", data)
+		rn.decSide("wide", c06.FSpec{Kind: "LZW", Early: true}, "ref/lzw", data)
+		rn.encSide("wide", c06.FSpec{Kind: "Flate"}, "compress/zlib", data)
+		rn.encSide("wide", c06.FSpec{Kind: "RL"}, "ref/runlength", data)
+		rn.decSide("wide", c06.FSpec{Kind: "RL"}, "ref/runlength", data)
+		rn.distinct("wl", lens[i])
+	})
+	r.Par(len(wide), func(i int) {
+		if r.Expired() {
+			return
+		}
+		b := wide[i]
+		for _, g := range []c06.FSpec{{Kind: "CCITT", K: 0, EOL: true}, {Kind: "CCITT", K: -1}} {
+			for _, bi1 := range []bool{false, true} {
+				s := g
+				s.Cols, s.BlackIs1 = b.Cols, bi1
+				rn.encSide("wide", s, "x/image/ccitt", b.Data)
+			}
+		}
+		rn.distinct("ww", b.Cols, b.Data)
+	})
+	// small read buffers on the decoder side
+	type dj struct {
+		s     c06.FSpec
+		codec string
+	}
+	djs := []dj{{c06.FSpec{Kind: "A85"}, "encoding/ascii85"}, {c06.FSpec{Kind: "AHx"}, "ref/asciihex"}, {c06.FSpec{Kind: "RL"}, "ref/runlength"}, {c06.FSpec{Kind: "LZW", Early: true}, "ref/lzw"}}
+	for n := 0; n <= 12; n++ {
+		data := c06.Pattern("ramp", 1, n)
+		for _, j := range djs {
+			enc, err := indepEncode(j.codec, j.s, data)
+			if err != nil {
+				r.Infra("independent encoder " + j.codec + ": " + err.Error())
+				return
+			}
+			for _, rbuf := range []int{1, 2, 3, 5, 7} {
+				r.Eval(1)
+				got, err := c06.Decode(v15, j.s.Filter(), enc, rbuf, 2*len(data)+4096)
+				if err == nil && bytes.Equal(got, data) {
+					r.Outcome("ok:dec:small-reads")
+					continue
+				}
+				fp := fmt.Sprintf("interop:%s:dec:%s:%s:small-read-buffer", filterClass(j.s), strings.SplitN(j.codec, "/line", 2)[0], symptom(data, got, err))
+				rn.fail(fp, Case{Space: "wide", Filter: j.s, Dir: "dec", Codec: j.codec}, data, enc, got,
+					fmt.Sprintf("%s encodes %d bytes to %d bytes; the library's %s, read %d bytes at a time, decodes them to %d bytes (%v)", j.codec, len(data), len(enc), j.s, rbuf, len(got), err))
+			}
+		}
+	}
 }
 
 // chunkSpace: the library encoders fed in several writes (every way of cutting
